@@ -18,6 +18,8 @@ sys.path.insert(0, os.path.dirname(os.path.abspath(__file__)))
 import gen  # noqa: E402
 import pyimpl  # noqa: E402
 
+CHURN = False
+CHURN_COUNT = [0]
 DRIVER = os.path.join(os.path.dirname(os.path.abspath(__file__)), "..", "ocaml", "rundriver")
 
 
@@ -176,13 +178,27 @@ def run_cases(cases, want_parse=True):
             ln = min(len(s), 12)
             stats["input_len_hist"][ln] = stats["input_len_hist"].get(ln, 0) + 1
             st = pyimpl.str_tokens(s)
+            if CHURN:
+                # a NEW string object per input, dropped before the next one is made; caches emptied in between (two inputs out
+                # of three) or squeezed to one entry, so that nothing keeps the previous input alive: an answer that depends
+                # on the parse history or on a recycled object address shows here
+                s_live = None
+                CHURN_COUNT[0] += 1
+                if CHURN_COUNT[0] % 3 != 0:
+                    pyimpl.P.ParseCache.clear_caches()
+                elif CHURN_COUNT[0] % 2 == 0:
+                    for pc in pyimpl.P.ParseCache.list():
+                        pc.max_size = 1
+                s_live = "".join([ch for ch in s])
+            else:
+                s_live = s
             for n in names:
                 rid = d.rids[id(objs[n])]
                 offsets = range(len(s) + 1) if len(s) <= 40 else sorted({0, 1, 2, len(s) // 2, len(s) - 1, len(s)})
                 for i in offsets:
                     try:
                         with pyimpl.time_limit(0.5 if len(s) <= 40 else 5.0):
-                            r_impl = pyimpl.run_lparse(objs[n], s, i)
+                            r_impl = pyimpl.run_lparse(objs[n], s_live, i)
                     except pyimpl.SlowCase:
                         slow = True   # exponential backtracking: a runtime effect, not semantics; skip ...
                         # ... unless it does not even terminate on a TRIVIAL input (exponential blow-up needs a long
@@ -203,9 +219,9 @@ def run_cases(cases, want_parse=True):
                 if want_parse:
                     try:
                         with pyimpl.time_limit(2.0):
-                            rows = [(" ".join(["PARSE", "0", str(rid), str(i)] + st), (c, "parse", n, s, i, pyimpl.run_parse(objs[n], s, i)))
+                            rows = [(" ".join(["PARSE", "0", str(rid), str(i)] + st), (c, "parse", n, s, i, pyimpl.run_parse(objs[n], s_live, i)))
                                     for i in sorted({0, len(s) // 2, len(s)})]
-                            rows.append((" ".join(["PALL", "0", str(rid)] + st), (c, "parse_all", n, s, 0, pyimpl.run_parse_all(objs[n], s))))
+                            rows.append((" ".join(["PALL", "0", str(rid)] + st), (c, "parse_all", n, s, 0, pyimpl.run_parse_all(objs[n], s_live))))
                     except pyimpl.SlowCase:
                         slow = True
                         break
@@ -298,7 +314,12 @@ def main():
     ap.add_argument("--mode", default="plain")
     ap.add_argument("--out", required=True)
     ap.add_argument("--cases", default=None, help="JSON file with explicit cases (replay/corpus)")
+    ap.add_argument("--churn", action="store_true",
+                    help="every input is a fresh, short-lived string object and the caches are cleared between inputs "
+                         "(results must not depend on what was parsed before, nor on object addresses being reused)")
     a = ap.parse_args()
+    global CHURN
+    CHURN = a.churn
     t0 = time.time()
     if a.cases:
         cases = json.load(open(a.cases))
